@@ -177,6 +177,63 @@ def run_obligations(obligations, nproc=None):
     return results
 
 
+TESTS = {
+    'C01': ['pydlutils/tests/test_yanny.py'], 'C02': ['pydlutils/tests/test_yanny.py'], 'C03': ['pydlutils/tests/test_yanny.py'],
+    'C04': ['pydlutils/tests/test_spheregroup.py'], 'C05': ['pydlutils/tests/test_spheregroup.py'],
+    'C06': ['pydlutils/tests/test_sdss.py', 'photoop/tests/test_photoop.py'], 'C07': ['pydlutils/tests/test_sdss.py'],
+    'C08': ['pydlutils/tests/test_bspline.py'], 'C09': ['pydlutils/tests/test_bspline.py'], 'C10': ['pydlutils/tests/test_bspline.py', 'pydlutils/tests/test_math.py'],
+    'C11': ['pydlspec2d/tests/test_spec2d.py'], 'C12': ['pydlutils/tests/test_mangle.py'], 'C13': ['pydlutils/tests/test_trace.py', 'goddard/tests/test_goddard.py'],
+    'C14': ['tests/test_pydl.py'], 'C15': ['pydlspec2d/tests/test_spec1d.py'], 'C16': ['pydlspec2d/tests/test_spec1d.py'],
+    'C17': ['pydlutils/tests/test_math.py', 'pydlutils/tests/test_image.py', 'pydlspec2d/tests/test_spec2d.py'],
+    'C19': ['goddard/tests/test_goddard.py', 'photoop/tests/test_sdssio.py', 'pydlspec2d/tests/test_spec2d.py'],
+    'C20': ['photoop/tests/test_window.py', 'pydlspec2d/tests/test_spec1d.py'],
+}
+
+
+def start_translation_validation(pid, tier):
+    """the repository's own tests, run against the INSTRUMENTED modules (concrete mode): the loader's
+    rewrites must be the identity on concrete values.  quick: the test files of the modules this
+    property touches; thorough: the whole suite.  Returns a Popen; collect with finish_tv()."""
+    import tempfile
+    targets = [os.path.join(REPO, 'pydl', t) for t in TESTS.get(pid, [])] if tier == 'quick' else [os.path.join(REPO, 'pydl')]
+    targets = [t for t in targets if os.path.exists(t)]
+    if not targets:
+        return None
+    out = tempfile.NamedTemporaryFile(prefix='tv_%s_' % pid, suffix='.xml', delete=False, dir=os.environ.get('TMPDIR', '/tmp'))
+    out.close()
+    env = dict(os.environ)
+    env['PYTHONPATH'] = VERIF
+    cmd = [sys.executable, '-m', 'pytest', '-q', '-p', 'no:cacheprovider', '-p', 'pathsym.pytest_plugin', '--junitxml=' + out.name] + targets
+    p = subprocess.Popen(cmd, cwd=REPO, env=env, stdout=subprocess.DEVNULL, stderr=subprocess.DEVNULL)
+    p._xml = out.name
+    return p
+
+
+def finish_tv(p):
+    if p is None:
+        return {'tests_passed': 0, 'tests_failed': 0, 'note': 'no test files for this property'}
+    try:
+        p.wait(timeout=900)
+    except subprocess.TimeoutExpired:
+        p.kill()
+        return {'tests_passed': 0, 'tests_failed': -1, 'note': 'timeout'}
+    import xml.etree.ElementTree as ET
+    try:
+        root = ET.parse(p._xml).getroot()
+        ts = root if root.tag == 'testsuite' else root.find('testsuite')
+        tot, fail, err, skip = (int(ts.get(k, 0)) for k in ('tests', 'failures', 'errors', 'skipped'))
+        failed = [tc.get('classname', '') + '::' + tc.get('name', '') for tc in ts.iter('testcase')
+                  if tc.find('failure') is not None or tc.find('error') is not None]
+    except Exception as e:
+        return {'tests_passed': 0, 'tests_failed': -1, 'note': 'no junit output: %s' % e}
+    finally:
+        try:
+            os.unlink(p._xml)
+        except OSError:
+            pass
+    return {'tests_passed': tot - fail - err - skip, 'tests_failed': fail + err, 'failed': failed[:10]}
+
+
 # ------------------------------------------------------------------------------------------
 def load_known():
     fn = os.path.join(VERIF, 'known_findings.json')
